@@ -55,8 +55,14 @@ Lemma rl_adds_directive_definition f s u s' : g_directive_definition f s = POk (
 Proof. intros E. unfold g_directive_definition in E. rl_node_tac E. Qed.
 Lemma rl_adds_enum_type_definition f s u s' : g_enum_type_definition f s = POk (u, s') -> rl_adds_node SK_ENUM_TYPE_DEFINITION s s'.
 Proof. intros E. unfold g_enum_type_definition in E. rl_node_tac E. Qed.
-Lemma rl_adds_fragment_definition f s u s' : g_fragment_definition f s = POk (u, s') -> rl_adds_node SK_FRAGMENT_DEFINITION s s'.
-Proof. intros E. unfold g_fragment_definition in E. rl_node_tac E. Qed.
+Lemma rl_adds_fragment_definition f s u s' t : ps_cur s = Some t -> tok_kind t <> TkStringValue ->
+  g_fragment_definition f s = POk (u, s') -> rl_adds_node SK_FRAGMENT_DEFINITION s s'.
+Proof.
+  intros Hc Hk E. unfold g_fragment_definition in E. unfold p_bind at 1 in E.
+  rewrite (peek_is_some TkStringValue t s Hc) in E.
+  destruct (tkind_eqb (tok_kind t) TkStringValue) eqn:Hb; [apply tkind_eqb_eq in Hb; contradiction|].
+  rl_node_tac E.
+Qed.
 Lemma rl_adds_input_object_type_definition f s u s' :
   g_input_object_type_definition f s = POk (u, s') -> rl_adds_node SK_INPUT_OBJECT_TYPE_DEFINITION s s'.
 Proof. intros E. unfold g_input_object_type_definition in E. rl_node_tac E. Qed.
@@ -217,9 +223,9 @@ Proof.
   - exists SK_DIRECTIVE_DEFINITION. split; [eapply rl_adds_directive_definition; eauto|reflexivity].
 Qed.
 
-Lemma rl_select_fragment_kind f s u s' :
+Lemma rl_select_fragment_kind f s u s' t : ps_cur s = Some t -> tok_kind t <> TkStringValue ->
   g_select_definition pkw_fragment f s = POk (u, s') -> rl_adds_node SK_FRAGMENT_DEFINITION s s'.
-Proof. intros E. unfold g_select_definition in E. rl_eval_kw E. eapply rl_adds_fragment_definition; eauto. Qed.
+Proof. intros Hc Hk E. unfold g_select_definition in E. rl_eval_kw E. eapply rl_adds_fragment_definition; eauto. Qed.
 
 Theorem rl_select_kind f def s u s' :
   rl_ok s -> g_select_definition def f s = POk (u, s') -> rl_dispatch def (rl_sigs s) ->
@@ -243,7 +249,8 @@ Proof.
         unfold rg_is_kw in Hfr. cbn [fst snd tkind_eqb andb] in Hfr. apply rg_streq_eq in Hfr. subst def.
         unfold rgl_fragment in Hq. destruct r0 as [|[k2 w2] r2]; [discriminate|]. destruct k2; try discriminate.
         destruct (_ && _); [|discriminate]. apply rg_ret_kind in Hq. subst d. cbn [fst].
-        exists SK_FRAGMENT_DEFINITION. split; [eapply rl_select_fragment_kind; eauto|reflexivity].
+        exists SK_FRAGMENT_DEFINITION. split; [|reflexivity].
+        eapply (rl_select_fragment_kind f s u s' t Hc); [rewrite Hkt; discriminate|exact E].
       * (* an operation type *)
         unfold rgl_operation in Hq. destruct (rg_is_optype (TkName, def)) eqn:Hop; [|discriminate].
         assert (Hd0 : fst d = RgkOperation).
@@ -265,10 +272,8 @@ Proof.
   - (* a string, then the keyword *)
     unfold rgl_desc_then in Hq. destruct r0 as [|[k2 d2] r2]; [discriminate|]. destruct Hd as [<- Hok2].
     destruct k2; try discriminate Hq.
-    destruct (rgl_desc_fragment LP && rg_streq rg_s_fragment def) eqn:Hfr.
-    + apply andb_prop in Hfr as [_ Hfr]. apply rg_streq_eq in Hfr. subst def. apply rg_ret_kind in Hq. subst d. cbn [fst].
-      exists SK_FRAGMENT_DEFINITION. split; [eapply rl_select_fragment_kind; eauto|reflexivity].
-    + eapply rl_select_ts_def_kind; [exact E|]. eapply rgl_ts_def_kw_kind. exact Hq.
+    cbn [rgl_desc_fragment rgl_parser andb] in Hq.
+    eapply rl_select_ts_def_kind; [exact E|]. eapply rgl_ts_def_kw_kind. exact Hq.
 Qed.
 
 (* ------------------------------------------------------------------ the definition loop *)
